@@ -303,6 +303,57 @@ theorem agree_byParty {sO sA : Sig} {O O' A A' : Sem} (hO : Agree sO O O') (hA :
   simp only [byPartyImpl, byPartyLaw, hO.byHand, hA.byHand]
   cases oseats <;> simp [Args.restrict, allSig, Args.noExt]
 
+/-- ByParty for an allocator that takes only part of (prev_gains, max_seats): wrapper = composition on every
+    call whose `prev_gains` / `max_seats` have a column for every party (nested dicts: always) -/
+theorem byParty_eq_of_columns {sO sA : Sig} {O O' A A' : Sem} (hO : Agree sO O O') (hA : Agree sA A A')
+    (hsa : sA.seats = true) (a : Args)
+    (hp : ∀ k, ∃ x, partyColumn (a.prev.getD (.dict [])) k = .ok x)
+    (hm : ∀ k, ∃ x, partyColumn (a.max.getD (.dict [])) k = .ok x) :
+    byPartyImpl sO.seats sA.prev sA.max O A (a.restrict allSig) = byPartyLaw O' A' a := by
+  cases sO with | mk oseats oprev omax oext =>
+  cases sA with | mk seats prev max ext =>
+  simp at hsa; subst hsa
+  obtain ⟨f, hf⟩ : ∃ f : Key → V, ∀ k, partyColumn (a.prev.getD (.dict [])) k = .ok (f k) :=
+    ⟨fun k => Classical.choose (hp k), fun k => Classical.choose_spec (hp k)⟩
+  obtain ⟨g, hg⟩ : ∃ g : Key → V, ∀ k, partyColumn (a.max.getD (.dict [])) k = .ok (g k) :=
+    ⟨fun k => Classical.choose (hm k), fun k => Classical.choose_spec (hm k)⟩
+  simp only [byPartyImpl, byPartyLaw, hO.byHand, hA.byHand]
+  cases oseats <;> cases prev <;> cases max <;>
+    simp [Args.restrict, allSig, Args.noExt, hf, hg]
+
+/-- a dict of dicts has a column for every party -/
+theorem partyColumn_ok_of_nested (g : D) (h : ∀ p ∈ g, ∃ d, p.2 = V.dict d) (k : Key) :
+    ∃ x, partyColumn (.dict g) k = .ok x := by
+  have hitems : (V.dict g).items = .ok g := rfl
+  simp only [partyColumn, hitems, ok_bind]
+  suffices hs : ∃ r, g.filterMapM (fun p => do
+      let b ← keyIn k p.2
+      if b then do
+        let cg ← p.2.items
+        match D.get? cg k with
+        | some x => pure (some (p.1, x))
+        | Option.none => throw eKey
+      else pure Option.none) = .ok r by
+    obtain ⟨r, hr⟩ := hs
+    exact ⟨.dict r, by rw [hr]; rfl⟩
+  induction g with
+  | nil => exact ⟨[], by simp⟩
+  | cons p ps ih =>
+    obtain ⟨r, hr⟩ := ih (fun q hq => h q (by simp [hq]))
+    obtain ⟨d, hd⟩ := h p (by simp)
+    simp only [List.filterMapM_cons, hd, keyIn, V.items, ok_bind]
+    by_cases hk : D.has d k = true
+    · obtain ⟨v, hv⟩ := D.get?_of_has d k hk
+      simp only [hk, if_true, hv]
+      refine ⟨(p.1, v) :: r, ?_⟩
+      simp only [hd] at hr
+      simp [hr]
+    · simp only [Bool.not_eq_true] at hk
+      simp only [hk]
+      refine ⟨r, ?_⟩
+      simp only [hd] at hr
+      simp [hr]
+
 /-! ### multi-stage -/
 
 /-- stage lists related pointwise; `gains` says whether the stages are handed prev_gains / max_seats -/
